@@ -389,9 +389,7 @@ class Jackknife:
             variance_samples += (jackknife_samples[i] - mean_samples) ** 2.0
 
         if delete_n_points == 1:
-            variance_samples *= (len(jackknife_samples) - 1) / len(
-                jackknife_samples
-            )
+            variance_samples *= (len(data) - 1) / len(jackknife_samples)
         else:
             variance_samples *= (len(data) - delete_n_points) / (
                 delete_n_points * len(jackknife_samples)
